@@ -64,8 +64,10 @@ func (d *deduplicationStrategy) eval(
 	del := make([][]byte, 0)
 	var rewriteKeys [][]byte
 	var rewriteValues [][]byte
+	versionDeleted := false
 	// first, check if the whole entity is equal to the previous entity
 	if server.IsEntityEqual(d.prevEntityBytes, entityBytes, d.prev, e) {
+		versionDeleted = true
 		// if to be deleted... delete 5 key types for each change version:
 		// 1.delete json entry (key already in keysToDelete)
 		del = append(del, jsonKey)
@@ -128,6 +130,13 @@ func (d *deduplicationStrategy) eval(
 			}
 		}
 	}
+	if !versionDeleted {
+		// this version stays (possibly without some duplicate reference keys): it is the one that
+		// later versions must be compared with
+		d.prevJsonKey = jsonKey
+		d.prevEntityBytes = entityBytes
+		d.prev = e
+	}
 	if len(del) > 0 {
 		res := &compactionInstruction{
 			DeleteKeys: del,
@@ -138,9 +147,6 @@ func (d *deduplicationStrategy) eval(
 		}
 		return res, nil
 	}
-	d.prevJsonKey = jsonKey
-	d.prevEntityBytes = entityBytes
-	d.prev = e
 	return nil, nil
 }
 
